@@ -200,6 +200,17 @@ func init() {
 				}
 			}
 		}
+		if src.Boxed == nil {
+			if _, isStruct := elem.Underlying().(*types.Struct); isStruct {
+				t := it.toA(src)
+				it.strLenTerm(t)
+				if !it.p.branch(App("jsondecodes!"+typeKey(elem), SBool, t)) {
+					return it.newErr(IfaceV{}, "json: cannot unmarshal")
+				}
+				*p = it.freshValue(elem, "", it.decodeMaker(t, "json!"+typeKey(elem)), freshOpts{maxLen: it.ex.cfg.DecodeMaxLen})
+				return IfaceV{}
+			}
+		}
 		it.fail("json.Unmarshal of %s into %s is not modelled", it.describe(src), elem)
 		return nil
 	}
